@@ -609,8 +609,10 @@ class BLOBType(DataType):
 
     def import_value(self, value):
         """returns a python object from serialisation"""
+        if not isinstance(value, str):
+            raise WrongTypeError(f'{shortrepr(value)} must be a base64 encoded string')
         try:
-            return b64decode(value)
+            return b64decode(value, validate=True)
         except Exception:
             raise WrongTypeError(f'can not b64decode {shortrepr(value)}') from None
 
